@@ -63,7 +63,7 @@ for _d in sorted(os.listdir(os.path.join(VERIF, "seeded"))):
 _n = sum(t[0] for t in _rounds.values()); _f = sum(t[1] for t in _rounds.values()); _a = sum(t[2] for t in _rounds.values())
 out.append("%d rounds of (up to) twenty changes each were run (from the second round on every agent was also told, in one sentence each," % len(_rounds))
 out.append("what the earlier changes for its property had been, and asked for a different part of the behaviour, code path or kind")
-out.append("of trigger; the last round covered five properties only).  Detected at once, per round: %s (%d of %d); after the extensions listed in 11.3, %d of %d are" % (", ".join("%d/%d" % (_rounds[r][1], _rounds[r][0]) for r in sorted(_rounds)), _f, _n, _a, _n))
+out.append("of trigger; the last round covered ten properties only).  Detected at once, per round: %s (%d of %d); after the extensions listed in 11.3, %d of %d are" % (", ".join("%d/%d" % (_rounds[r][1], _rounds[r][0]) for r in sorted(_rounds)), _f, _n, _a, _n))
 out.append("detected on 3 of 3 seeds.  The rate of first-go detection does not climb from round to round - each round asks for")
 out.append("something *different* from everything caught before - so the useful reading is not the percentage but the list in")
 out.append("11.3: what the generators could not produce, one item at a time, until it could.  Several of the extensions exposed")
